@@ -77,6 +77,14 @@ def verify_function(key, tier='quick', keep_terms=False, discharge=True):
                 if ty.kind == 'fn':
                     env[p] = Val(T.FN, FnV('param', p))
                     continue
+                if ty.kind == 'xtuple':
+                    # *args: verified for the stated number of positional arguments (each of any type)
+                    n = int(ty.name or '0')
+                    env[p] = Val(T.Ty('xtuple'), tuple(st.fresh_val(T.ANY, '%s%d' % (p, i)) for i in range(n)))
+                    continue
+                if ty.kind == 'kwargs':
+                    env[p] = Val(ty, None)       # **kwargs assumed empty
+                    continue
                 env[p] = st.fresh_val(ty, p)
             if 'self' in env and env['self'].t.kind == 'ref':
                 st.assume(env['self'].z != 0)
